@@ -86,6 +86,14 @@ def _partition(ck: Checker) -> None:
         "deleted": lambda s, d: (not s) and d,
     }
     ck.require(set(fields) == set(expected), "C12.partition", fn, cls.node, f"result fields are {fields}", f"CompareStatusResult fields changed: {fields}", construct="class CompareStatusResult")
+    # the shortcut that leaves `deleted` empty is opt-in: by default the full partition is computed
+    flagp = next((p_ for p_ in fn.params if "deleted" in p_), None)
+    if flagp is not None:
+        dflt = fn.param_default(flagp)
+        ck.require(isinstance(dflt, ast.Constant) and dflt.value is True, "C12.partition", fn, fn.node,
+                   f"`{flagp}` defaults to True: a plain compare_status() call computes all four components",
+                   f"`{flagp}` defaults to {norm(dflt) if dflt is not None else 'nothing'}: a plain compare_status(src, dest, ids) call skips the source query and reports dest-only objects as ok instead of deleted",
+                   construct=f"def compare_status(... {flagp}=...)")
     rets = [r for r in walk_own(fn.node) if isinstance(r, ast.Return) and isinstance(r.value, ast.Call) and call_name(r.value) == "CompareStatusResult"]
     ck.floor("C12.partition", len(rets), 1, "CompareStatusResult(...) return sites")
     for r in rets:
